@@ -349,11 +349,13 @@ class Sim:
             return len(r.visible) >= 2 and r.visible[-1] not in r.grouping
         if kind == "mut_over":
             return bool(r.visible) and r.visible[0] not in r.grouping
+        if kind == "summ_over":
+            return bool(r.grouping)
         if kind in ("summ_sum", "group_by_add"):
             return _first_visible(r, lambda c: c.uid not in r.grouping) is not None
         if kind in ("ungroup",):
             return bool(r.grouping)
-        if kind in ("slice", "slice0", "slice2") or kind.startswith(("join", "union")):
+        if kind in ("slice", "slice0", "slice2", "slice3") or kind.startswith(("join", "union")):
             return not r.grouping  # the verbs reject grouped tables (C14)
         return bool(r.visible)
 
@@ -469,19 +471,24 @@ class Sim:
                 ref.grouping = []
 
             return node, effect, (lambda ref: None)
-        if kind in ("summ_count", "summ_sum"):
+        if kind in ("summ_count", "summ_sum", "summ_over"):
             name, uid = w.fresh("s"), w.fresh("u")
-            if kind == "summ_count":
+            if kind == "summ_over":  # the aggregate takes the name of the first grouping column
+                name = r.cols[r.grouping[0]].name
+            if kind in ("summ_count", "summ_over"):
                 val = w.fn("count", AGG)
             else:
                 val = w.fn("sum", AGG, col(_first_visible(r, lambda c: c.uid not in r.grouping)))
             node = w.obj("Summarize", child=child, names=[name], values=[val], uuids=[uid])
 
             def effect(ref, _name=name, _uid=uid):
-                keep = [u for u in ref.grouping]
+                keys = [u for u in ref.grouping]
+                # a grouping column overwritten by an aggregate of the same name is not part of the result (it still groups)
+                keep = [u for u in keys if ref.cols[u].name != _name]
+                group_keys = [u for u in keys if not ref.cols[u].const]  # constant keys are left out of GROUP BY
                 ref.cols = {u: ref.cols[u] for u in keep} | {_uid: RCol(_uid, _name, AGG, False, None)}
                 ref.visible = keep + [_uid]
-                ref.seg["group"] = [u for u in keep if not ref.cols[u].const]  # constant keys are left out of GROUP BY
+                ref.seg["group"] = group_keys
                 ref.seg["order"] = []
                 ref.grouping = []
                 ref.aggregated = True
@@ -498,8 +505,8 @@ class Sim:
                 return None
 
             return node, effect, hazard
-        if kind in ("slice", "slice0", "slice2"):
-            n_, k_ = (0, 0) if kind == "slice0" else (3, 1) if kind == "slice" else (2, 2)
+        if kind in ("slice", "slice0", "slice2", "slice3"):
+            n_, k_ = {"slice0": (0, 0), "slice": (3, 1), "slice2": (2, 2), "slice3": (1, 3)}[kind]
             node = w.obj("SliceHead", child=child, n=n_, offset=k_)
 
             def effect(ref, _n=n_, _k=k_):
@@ -650,7 +657,7 @@ class Explorer:
         for i, k in enumerate(seq):
             if k in BENIGN:
                 continue
-            if k in ("summ_count", "summ_sum"):
+            if k in ("summ_count", "summ_sum", "summ_over"):
                 n_summ += 1
                 if n_summ > 1 or not ({"group_by", "group_by_add"} & set(seq[:i])):
                     return False
